@@ -302,6 +302,33 @@ def run_ops(I, cls, blk, model, ops):
                 I.prove(f"C15.{cls}.list_assignment_installs_exactly_the_list", False, f"{len(chans)} channels / {len(_items(cls, blk))} items after assigning {k}")
                 return
             model[:] = list(zip(chans, its))
+        elif kind == "add_unstorable":
+            # an item whose label cannot be stored (256 characters): whether the block takes
+            # it (and it is removed again here) or refuses it, channels and items stay aligned
+            if cls == "emg":
+                it = I.mod("tdfEMG").EMGTrack("x" * 256, I.np.zeros((1,), dtype="<f4"))
+            else:
+                it = I.mod("tdfForcePlatformsCalibration").ForcePlatformInfo("x" * 256, I.np.zeros((2,), dtype="<f4"), I.np.zeros((4, 3), dtype="<f4"))
+            ch = I.ibv(f"{tag}.ch", CH[cls]) if op[1] else None
+            if ch is not None:
+                I.assume(I.and_(*[I.not_(c == ch) for c, _ in model]) if model else True)
+            try:
+                if cls == "emg":
+                    blk.addSignal(it, channel=ch) if ch is not None else blk.addSignal(it)
+                else:
+                    blk.add_platform(it, channel=ch) if ch is not None else blk.add_platform(it)
+            except Exception as e:  # noqa: BLE001
+                exc = e
+            I.observe(f"{tag}.exc", type(exc).__name__ if exc else None)
+            I.goal("unstorable")
+            if exc is None:
+                try:
+                    blk.removeSignal("x" * 256) if cls == "emg" else blk.remove_platform(it)
+                    rexc = None
+                except Exception as e:  # noqa: BLE001
+                    rexc = e
+                I.prove(f"C15.{cls}.accepted_item_can_be_removed_again", rexc is None, f"{type(rexc).__name__ if rexc else ''}")
+            exc = None  # the model is unchanged either way; check_state below asserts the alignment
         elif kind == "set_list_bad":  # fpdata: a list whose last element is not a platform
             k = op[1]
             its = [_item(I, cls, f"{tag}.{q}") for q in range(k)]
@@ -378,11 +405,13 @@ def seq_case(cls, start, ops):
 def alphabet(cls, tier):
     q = tier == "quick"
     if cls == "emg":
-        return [("add_auto",), ("add_explicit",), ("remove_label", 0), ("remove_label", 1), ("remove_label", "absent")]
+        return [("add_auto",), ("add_explicit",), ("remove_label", 0), ("remove_label", 1), ("remove_label", "absent"), ("add_unstorable", True)] + ([] if q else [("add_unstorable", False)])
     if cls == "fpdata":
         return [("add_auto",), ("add_explicit",), ("set_list", 2), ("set_list_bad", 1)] + ([] if q else [("set_list", 0), ("set_list", 1), ("set_list_bad", 0), ("set_list_bad", 2)])
     a = [("add_auto",), ("add_explicit",), ("remove_index",), ("remove_item", 0), ("remove_item", "foreign"),
          ("add_many", 2, True), ("add_many", 2, False), ("set_pairs", 2)]
+    if not q:
+        a += [("add_unstorable", True)]
     if not q:
         a += [("remove_item", 1), ("remove_many", (0, 1)), ("set_pairs", 0), ("add_many", 1, True)]
     return a
